@@ -229,7 +229,7 @@ ANN_IS_CHECK = {
         assert(at(board.board, ok.0 as int, ok.1 as int) == Square::Full(Piece { kind: King, color: color }));
         assert(at(board.board, ek.0 as int, ek.1 as int) == Square::Full(Piece { kind: King, color: opp(color) }));
     }''',
-    'expect': {'loops': [], 'returns': 0},
+    'expect': {'loops': []},
 }
 
 
